@@ -98,7 +98,9 @@ class Outcome:
             if witness_key(name, clause) in e["_witnesses"]:
                 return e
             sig = m.get("signature")
-            if sig is not None and (origin != "det" or m.get("signature_everywhere")):
+            # quick tier: cases of the deterministic corpus are matched by exact witness lists only (a new case with the finding's signature is
+            # reported); thorough tier: hundreds of thousands of deterministic cases, matched by list OR by the TLA+-computed signature
+            if sig is not None and (origin != "det" or m.get("signature_everywhere") or tier() == "thorough"):
                 if all(f in facts for f in sig.get("all_of", [])) and not any(f in facts for f in sig.get("none_of", [])) \
                         and (not sig.get("any_of") or any(f in facts for f in sig["any_of"])):
                     return e
